@@ -1,6 +1,8 @@
 -- root of the proof library: every property file (the driver does not import this)
+import DigModel.Props.C02
 import DigModel.Props.C03
 import DigModel.Props.C05
+import DigModel.Props.C07
 import DigModel.Props.C13
 import DigModel.Props.C17
 import DigModel.Props.C20
